@@ -754,7 +754,7 @@ impl ProtoExpression {
 
                 let wide = width > 64;
                 let x_wide = x.width() > 64;
-                if expr_context.signed {
+                if expr_context.signed && operand_is_signed(x) {
                     (x_payload, x_mask_xz) =
                         expand_sign(width, x.width(), x_payload, x_mask_xz, builder);
                 } else if wide && builder.func.dfg.value_type(x_payload) != I128 {
@@ -1090,16 +1090,23 @@ impl ProtoExpression {
                     } else {
                         expr_context.width
                     };
-                    (x_payload, x_mask_xz) =
-                        expand_sign(width, x.width(), x_payload, x_mask_xz, builder);
+                    // A bit-/part-select is unsigned even inside a signed
+                    // context (the interpreter reads it as an unsigned value):
+                    // only operands that are themselves signed sign-extend.
+                    if operand_is_signed(x) {
+                        (x_payload, x_mask_xz) =
+                            expand_sign(width, x.width(), x_payload, x_mask_xz, builder);
+                    }
                     // The shift count `y` is an unsigned magnitude, so it must
                     // not be sign-extended: a narrow count with its MSB set
                     // would become a huge value, and the shift masks the count
                     // modulo the operand width, yielding the wrong amount.
-                    if !matches!(
-                        op,
-                        Op::LogicShiftL | Op::LogicShiftR | Op::ArithShiftL | Op::ArithShiftR
-                    ) {
+                    if operand_is_signed(y)
+                        && !matches!(
+                            op,
+                            Op::LogicShiftL | Op::LogicShiftR | Op::ArithShiftL | Op::ArithShiftR
+                        )
+                    {
                         (y_payload, y_mask_xz) =
                             expand_sign(width, y.width(), y_payload, y_mask_xz, builder);
                     }
@@ -1329,7 +1336,7 @@ impl ProtoExpression {
                         }
                     }
                     Op::ArithShiftR => {
-                        if signed {
+                        if signed && operand_is_signed(x) {
                             let native_bits = if needs_wide { 128 } else { 64 };
                             // Operands wider than the native container were
                             // already reduced to `native_bits` bits (the
@@ -2139,12 +2146,16 @@ impl ProtoExpression {
                     && false_expr.expr_context().signed
                     && true_expr.width() > 0
                     && false_expr.width() > 0;
+                // A selected variable is unsigned whatever context it was
+                // handed: each branch extends by its own signedness.
+                let t_signed = both_signed && operand_is_signed(true_expr);
+                let f_signed = both_signed && operand_is_signed(false_expr);
 
                 // Widen branches to match; skip when the value is already
                 // I128 (unsized all_bit literal).
                 if result_wide || t_wide || f_wide {
                     if !t_wide && builder.func.dfg.value_type(true_payload) != I128 {
-                        if both_signed && *width > true_expr.width() {
+                        if t_signed && *width > true_expr.width() {
                             (true_payload, true_mask_xz) = expand_sign(
                                 *width,
                                 true_expr.width(),
@@ -2160,7 +2171,7 @@ impl ProtoExpression {
                                 true_mask_xz = Some(builder.ins().uextend(I128, v));
                             }
                         }
-                    } else if t_wide && both_signed && *width > true_expr.width() {
+                    } else if t_wide && t_signed && *width > true_expr.width() {
                         // Already-I128 branch narrower than the result
                         // (e.g. i96 vs i128): the load zero-extended it.
                         (true_payload, true_mask_xz) = expand_sign(
@@ -2172,7 +2183,7 @@ impl ProtoExpression {
                         );
                     }
                     if !f_wide && builder.func.dfg.value_type(false_payload) != I128 {
-                        if both_signed && *width > false_expr.width() {
+                        if f_signed && *width > false_expr.width() {
                             (false_payload, false_mask_xz) = expand_sign(
                                 *width,
                                 false_expr.width(),
@@ -2188,7 +2199,7 @@ impl ProtoExpression {
                                 false_mask_xz = Some(builder.ins().uextend(I128, v));
                             }
                         }
-                    } else if f_wide && both_signed && *width > false_expr.width() {
+                    } else if f_wide && f_signed && *width > false_expr.width() {
                         (false_payload, false_mask_xz) = expand_sign(
                             *width,
                             false_expr.width(),
@@ -2215,7 +2226,7 @@ impl ProtoExpression {
                         }
                     }
                 } else if both_signed {
-                    if *width > true_expr.width() {
+                    if t_signed && *width > true_expr.width() {
                         (true_payload, true_mask_xz) = expand_sign(
                             *width,
                             true_expr.width(),
@@ -2224,7 +2235,7 @@ impl ProtoExpression {
                             builder,
                         );
                     }
-                    if *width > false_expr.width() {
+                    if f_signed && *width > false_expr.width() {
                         (false_payload, false_mask_xz) = expand_sign(
                             *width,
                             false_expr.width(),
@@ -3556,5 +3567,27 @@ impl ProtoExpression {
         };
 
         Some((payload, mask_xz))
+    }
+}
+
+/// Whether an operand sign-extends in a signed context.  The analyzer hands a
+/// selected variable the context of the expression around it, but a bit- or
+/// part-select is unsigned (IEEE 1800-2017 11.8.1) and the interpreter reads
+/// it as an unsigned value.
+fn operand_is_signed(x: &ProtoExpression) -> bool {
+    match x {
+        ProtoExpression::Variable {
+            select,
+            dynamic_select,
+            expr_context,
+            ..
+        } => expr_context.signed && select.is_none() && dynamic_select.is_none(),
+        ProtoExpression::DynamicVariable {
+            select,
+            dynamic_select,
+            expr_context,
+            ..
+        } => expr_context.signed && select.is_none() && dynamic_select.is_none(),
+        other => other.expr_context().signed,
     }
 }
